@@ -14,7 +14,7 @@ from ..ref import http as refhttp
 
 LEVEL = 'fault_enumeration'
 TECHNIQUE = 'runtime monitoring with fault enumeration over the proxy phase: ordered operation-log oracle (nothing written before the tunnel is up)'
-BUDGET_S = {'quick': 25, 'thorough': 150}
+BUDGET_S = {'quick': 60, 'thorough': 200}
 REQUIRED = {'all': ['oracle.sends_attempted_during_proxy_negotiation', 'oracle.proxy_runs', 'oracle.tunnel_ok', 'oracle.tunnel_refused', 'oracle.fault_runs', 'oracle.mapping_runs',
                     'oracle.order_checked']}
 RULE = ('ws/wss target x proxies mapping ({}, only http, only https, both, None with HTTP_PROXY/HTTPS_PROXY in a scrubbed '
@@ -313,6 +313,8 @@ def judge(run, w, turl, thost, tport, tsecure, purl, phost, pport, psecure, cred
             if complete_at is None or i < complete_at:
                 return 'tls-handshake-with-target-before-tunnel-up', detail
         if bool(target_wraps) != (tsecure and expect_ok):
+            if expect_ok and tsecure and psecure and any(e[0] == 'tls_wrap_of_tls_socket' for e in w.log):
+                return 'tunnel-up-but-no-connected:wss-through-an-https-proxy-needs-tls-inside-tls', detail
             if expect_ok:
                 return 'tls-to-target-mismatch', detail
         proxy_wraps = [e for e in w.log if e[0] == 'tls_wrap' and e[5][0] == phost]
@@ -321,6 +323,8 @@ def judge(run, w, turl, thost, tport, tsecure, purl, phost, pport, psecure, cred
     if expect_ok:
         acc.count2('oracle', 'tunnel_ok')
         if 'connected' not in names:
+            if tsecure and psecure and any(e[0] == 'tls_wrap_of_tls_socket' for e in w.log):
+                return 'tunnel-up-but-no-connected:wss-through-an-https-proxy-needs-tls-inside-tls', detail
             return 'tunnel-up-but-no-connected', detail
         ev = run.events[run.names.index('connected')]
         if ev.proxy != purl:
